@@ -26,7 +26,7 @@ func init() {
 			"the spelling of the references is not prescribed (named, decimal and hex forms are accepted)",
 			"text(v) of a non-string value is what {{ v }} prints",
 		},
-		quick: 1024 + 420 + 20000, thorough: 1024 + 420 + 120000, minQuick: 2000, minThorough: 30000,
+		quick: 1024 + 420 + 20000, thorough: 1024 + 420 + 800000, minQuick: 2000, minThorough: 30000,
 	}})
 }
 
